@@ -32,11 +32,11 @@ func (s subSpec) String() string {
 }
 
 type spec struct {
-	Cfg  hx.GCfg
-	Pubs int
-	Msgs int
-	Subs []subSpec
-	C    int
+	Cfg   hx.GCfg
+	Pubs  int
+	Msgs  int
+	Subs  []subSpec
+	C     int
 	Decoy bool // a second topic with its own subscription and message
 }
 
